@@ -249,3 +249,7 @@ pub fn reader_bytes(r: &blake3::OutputReader) -> Vec<u8> {
     out.push(s.position_within_block);
     out
 }
+
+pub fn words_of(block: &[u8; 64]) -> Vec<u32> {
+    (0..16).map(|i| u32::from_le_bytes([block[4 * i], block[4 * i + 1], block[4 * i + 2], block[4 * i + 3]])).collect()
+}
